@@ -52,9 +52,10 @@ func (fr *FuncRun) mapStore(st *State, mt *types.Map, m, k, v string) {
 	w := fr.w
 	domH, valH, lenH := w.MapDomHeap(mt), w.MapValHeap(mt), w.MapLenHeap()
 	dom, val, ml := fr.heapCur(st, domH), fr.heapCur(st, valH), fr.heapCur(st, lenH)
-	saved := fr.curWriteFresh
+	saved, savedRoot := fr.curWriteFresh, fr.curWriteRoot
 	fr.curWriteFresh = fr.freshRefs[m]
-	defer func() { fr.curWriteFresh = saved }()
+	fr.curWriteRoot = m
+	defer func() { fr.curWriteFresh, fr.curWriteRoot = saved, savedRoot }()
 	was := fr.def(sBool, sel(sel(dom, m), k))
 	fr.heapSet(st, domH, sto(dom, m, sto(sel(dom, m), k, "true")))
 	fr.heapSet(st, valH, sto(val, m, sto(sel(val, m), k, v)))
